@@ -379,6 +379,11 @@ func (l *Lexer) readString() (string, int, int, int) {
 		endChar = l.prevCharNumber
 		endUtf8Char = l.prevUtf8CharNumber
 		l.skipWhitespace()
+		// Comments are ignored between the parts of a string, just like white space.
+		for l.ch == '#' || (l.ch == '/' && l.peekChar() == '/') {
+			l.skipToNextLine()
+			l.skipWhitespace()
+		}
 	}
 	return sb.String(), endLine, endChar, endUtf8Char
 }
